@@ -315,6 +315,91 @@ func ruleTBLmodels(w *World, r *Report) {
 		}
 		return false
 	})
+	// the same dispatch written as a table: a package-level map from model name to curve, looked up with the model, and a
+	// fall-back call after the look-up for names the table does not know
+	tableArms := map[string]ast.Expr{}
+	var tableDefault ast.Node
+	if len(arms) == 0 {
+		ast.Inspect(fi.Decl.Body, func(m ast.Node) bool {
+			ix, ok := m.(*ast.IndexExpr)
+			if !ok {
+				return true
+			}
+			id, ok := ix.X.(*ast.Ident)
+			if !ok {
+				return true
+			}
+			v, ok := info.ObjectOf(id).(*types.Var)
+			if !ok || v.Parent() != fi.Pkg.Types.Scope() {
+				return true
+			}
+			if _, isMap := v.Type().Underlying().(*types.Map); !isMap {
+				return true
+			}
+			for _, f := range fi.Pkg.Syntax {
+				ast.Inspect(f, func(k ast.Node) bool {
+					vs, ok := k.(*ast.ValueSpec)
+					if !ok {
+						return true
+					}
+					for i, nm := range vs.Names {
+						if info.ObjectOf(nm) != types.Object(v) || i >= len(vs.Values) {
+							continue
+						}
+						if cl, ok := vs.Values[i].(*ast.CompositeLit); ok {
+							for _, el := range cl.Elts {
+								if kv, ok := el.(*ast.KeyValueExpr); ok {
+									if tv := info.Types[kv.Key]; tv.Value != nil && tv.Value.Kind() == constant.String {
+										tableArms[constant.StringVal(tv.Value)] = kv.Value
+									}
+								}
+							}
+						}
+					}
+					return true
+				})
+			}
+			return true
+		})
+		if len(tableArms) > 0 {
+			// the fall-back: the last statement of the function is a return of a call
+			if n := len(fi.Decl.Body.List); n > 0 {
+				if rt, ok := fi.Decl.Body.List[n-1].(*ast.ReturnStmt); ok {
+					tableDefault = rt
+				}
+			}
+		}
+	}
+	nodeCallee := func(n ast.Node) string {
+		out := ""
+		if n == nil {
+			return out
+		}
+		if id, ok := n.(*ast.Ident); ok { // a function named directly as the table entry
+			if f, ok := info.ObjectOf(id).(*types.Func); ok {
+				return f.Name()
+			}
+		}
+		ast.Inspect(n, func(m ast.Node) bool {
+			if c, ok := m.(*ast.CallExpr); ok {
+				if f := typeutil.StaticCallee(info, c); f != nil {
+					out = f.Name()
+				}
+			}
+			return true
+		})
+		return out
+	}
+	if len(tableArms) > 0 {
+		for _, c := range consts {
+			r.Cond(tableArms[c] != nil, "TBL-models", "model:"+c, w.Pos(fi.Decl.Pos()), "has a table entry ("+nodeCallee(tableArms[c])+")", "decay model \""+c+"\" is declared (and accepted by validation) but the dispatch table of calculateTimeDecayModel has no entry for it: it silently decays exponentially")
+		}
+		for c, e := range tableArms {
+			cal := strings.ToLower(nodeCallee(e))
+			r.Cond(strings.Contains(cal, c), "TBL-models", "arm:"+c+":helper", w.Pos(e.Pos()), "dispatches to "+nodeCallee(e), "the \""+c+"\" entry dispatches to "+nodeCallee(e)+", not to the "+c+" model")
+		}
+		r.Cond(tableDefault != nil && strings.Contains(strings.ToLower(nodeCallee(tableDefault)), "exponential"), "TBL-models", "default:exponential", w.Pos(fi.Decl.Pos()), "unknown model names fall back to the exponential model", "the fall-back after the table look-up of calculateTimeDecayModel is not the exponential model (unknown model names and per-memory overrides with typos change meaning)")
+	}
 	calleeOf := func(cc *ast.CaseClause) string {
 		out := ""
 		if cc == nil {
@@ -331,6 +416,9 @@ func ruleTBLmodels(w *World, r *Report) {
 		return out
 	}
 	for _, c := range consts {
+		if len(tableArms) > 0 {
+			break
+		}
 		r.Cond(arms[c] != nil, "TBL-models", "model:"+c, w.Pos(fi.Decl.Pos()), "has a dispatch arm ("+calleeOf(arms[c])+")", "decay model \""+c+"\" is declared (and accepted by validation) but calculateTimeDecayModel has no arm for it: it silently decays exponentially")
 	}
 	// each arm calls a distinct helper whose name contains the model name
@@ -338,13 +426,25 @@ func ruleTBLmodels(w *World, r *Report) {
 		cal := strings.ToLower(calleeOf(cc))
 		r.Cond(strings.Contains(cal, c), "TBL-models", "arm:"+c+":helper", w.Pos(cc.Pos()), "dispatches to "+calleeOf(cc), "the \""+c+"\" arm dispatches to "+calleeOf(cc)+", not to the "+c+" model")
 	}
-	r.Cond(deflt != nil && strings.Contains(strings.ToLower(calleeOf(deflt)), "exponential"), "TBL-models", "default:exponential", w.Pos(fi.Decl.Pos()), "unknown model names fall back to the exponential model", "the default arm of calculateTimeDecayModel is not the exponential model (unknown model names and per-memory overrides with typos change meaning)")
+	if len(tableArms) == 0 {
+		r.Cond(deflt != nil && strings.Contains(strings.ToLower(calleeOf(deflt)), "exponential"), "TBL-models", "default:exponential", w.Pos(fi.Decl.Pos()), "unknown model names fall back to the exponential model", "the default arm of calculateTimeDecayModel is not the exponential model (unknown model names and per-memory overrides with typos change meaning)")
+	}
 	// unit guards dominate the switch
 	fn := w.SSAFunc(fi.Obj)
 	helpers := func(in ssa.Instruction) bool {
 		c, ok := in.(*ssa.Call)
 		if !ok {
 			return false
+		}
+		if c.Call.StaticCallee() == nil && !c.Call.IsInvoke() { // a curve taken out of the dispatch table
+			for _, rt := range append(valueRoots(c.Call.Value), c.Call.Value) {
+				if ex, ok := rt.(*ssa.Extract); ok {
+					rt = ex.Tuple
+				}
+				if _, isLk := rt.(*ssa.Lookup); isLk {
+					return true
+				}
+			}
 		}
 		o := calleeObj(&c.Call)
 		return o != nil && relPkg(o) == "pkg/engine" && strings.HasPrefix(o.Name(), "calculate")
@@ -720,6 +820,9 @@ func ruleSIBmetatypes(w *World, r *Report) {
 		fn  string
 	}
 	readers := map[string][]rd{}
+	// the types one function asserts for one key: a function that tries several (a type switch, or one comma-ok assertion
+	// after the other, each on a look-up of its own) is a tolerant reader, not a single-type one
+	assertedIn := map[string]map[string]bool{}
 	type wr struct {
 		t   types.Type
 		pos token.Pos
@@ -768,6 +871,10 @@ func ruleSIBmetatypes(w *World, r *Report) {
 							continue
 						}
 						readers[k] = append(readers[k], rd{x.AssertedType, x.Pos(), shortName(fi.Obj)})
+						if assertedIn[shortName(fi.Obj)+"\x00"+k] == nil {
+							assertedIn[shortName(fi.Obj)+"\x00"+k] = map[string]bool{}
+						}
+						assertedIn[shortName(fi.Obj)+"\x00"+k][x.AssertedType.String()] = true
 					case *ssa.MapUpdate:
 						k, isC := constString(x.Key)
 						if !isC || !strings.HasPrefix(k, "_") {
@@ -779,6 +886,19 @@ func ruleSIBmetatypes(w *World, r *Report) {
 					}
 				}
 			}
+		}
+	}
+	for k, rs := range readers {
+		var strict []rd
+		for _, rv := range rs {
+			if len(assertedIn[rv.fn+"\x00"+k]) <= 1 {
+				strict = append(strict, rv)
+			}
+		}
+		if len(strict) == 0 {
+			delete(readers, k)
+		} else {
+			readers[k] = strict
 		}
 	}
 	n := 0
